@@ -2,6 +2,8 @@
 
 use crate::api::Int;
 use vlib::runner::{outcome, Outcome};
+use proptest::prelude::*;
+use vlib::gen::{self, Shape};
 use vlib::{Pat, Z};
 
 pub fn ld<T: Int>(p: &Pat) -> T {
@@ -105,3 +107,33 @@ pub fn sig_digits(p: &[u8], digit_bytes: usize) -> usize {
 pub fn job_name<T: Int>(sub: &str) -> String {
     format!("{}@{}", sub, T::cfg())
 }
+
+/// source patterns for a cast from `src` to `tgt`: structured source patterns, plus target
+/// boundary values embedded in the source (bits above the target width set / sign extension
+/// crossing digit boundaries)
+pub fn cast_sources(src: Shape, tgt: Shape) -> BoxedStrategy<Pat> {
+    let tw = tgt.bits() as u64;
+    prop_oneof![
+        4 => gen::pattern(src),
+        3 => (gen::pattern(tgt), any::<bool>(), -3i64..=3).prop_map(move |(p, signed, k)| {
+            // a target-shaped value, shifted by k * 2^Wt, wrapped into the source
+            let z = Z::from_le(&p.0, signed).add(&Z::pow2(tw).mul_i(k));
+            Pat(z.to_le_wrapped(src.bytes))
+        }),
+        2 => (0u8..8, -2i64..=2).prop_map(move |(sel, e)| {
+            let z = match sel {
+                0 => Z::pow2(tw - 1),
+                1 => Z::pow2(tw - 1).neg(),
+                2 => Z::pow2(tw),
+                3 => Z::pow2(tw).neg(),
+                4 => Z::zero(),
+                5 => Z::pow2(tw + 1),
+                6 => Z::pow2(src.bits() as u64 - 1),
+                _ => Z::pow2(tw).add(&Z::pow2(tw - 1)),
+            };
+            Pat(z.add_i(e).to_le_wrapped(src.bytes))
+        }),
+    ]
+    .boxed()
+}
+
